@@ -172,9 +172,15 @@ impl Lift for SubWordValue {
             };
 
             // If we find a word, we can easily construct the return data
+            // A sub-word has to fit inside the word it is part of
+            let offset = offset.checked_add(shift)?;
+            if offset.checked_add(length)? > WORD_SIZE_BITS {
+                return None;
+            }
+
             let payload = SVD::SubWord {
                 value,
-                offset: offset + shift,
+                offset,
                 size: length,
             };
 
